@@ -979,3 +979,116 @@ func ruleR9_7(w *World, r *Report) {
 		r.Unk("R9.7", "level-1 bindings of list elements", "-", "no method of Solver binds elements of a literal list at level 1")
 	}
 }
+
+// ---------- R7.4: a method that promises a MUS returns a set that went through a minimising scheme ----------
+
+func ruleR7_4(w *World, r *Report) {
+	r.Rule("R7.4", "every (problem, nil) return of a MUS* method of explain.Problem hands on the result of another MUS* method, or comes after a deletion loop (every candidate clause relaxed in turn, kept exactly when the solver then answers Sat), or is the insertion scheme (the returned set is the one a solver built from it just found Unsat, grown by the last clause added before Unsat)", 3)
+	unsatK, _ := w.statusConst("Unsat")
+	satK, _ := w.statusConst("Sat")
+	isMUS := func(fn *ssa.Function) bool {
+		if w.PkgName(fn) != "explain" || fn.Signature.Recv() == nil || fn.Signature.Params().Len() != 0 || !strings.HasPrefix(fn.Name(), "MUS") {
+			return false
+		}
+		res := fn.Signature.Results()
+		return res.Len() == 2 && typeShort(res.At(0).Type()) == "*explain.Problem" && isErrorType(res.At(1).Type())
+	}
+	n := 0
+	for _, fn := range w.Fns {
+		if !isMUS(fn) {
+			continue
+		}
+		k := 0
+		allInstrs(fn, func(ins ssa.Instruction) {
+			ret, ok := ins.(*ssa.Return)
+			if !ok || len(ret.Results) != 2 {
+				return
+			}
+			// delegation of both results
+			if ex, isEx := ret.Results[0].(*ssa.Extract); isEx {
+				if c, isC := ex.Tuple.(*ssa.Call); isC {
+					for _, callee := range w.Callees[c] {
+						if isMUS(callee) {
+							k++
+							n++
+							r.OK("R7.4", fmt.Sprintf("%s success return #%d is minimal", w.FuncName(fn), k), w.InstrPos(ret), "result of "+w.FuncName(callee))
+							return
+						}
+					}
+				}
+			}
+			if e, isK := ret.Results[1].(*ssa.Const); !isK || !e.IsNil() {
+				return
+			}
+			if p, isK := ret.Results[0].(*ssa.Const); isK && p.IsNil() {
+				return
+			}
+			k++
+			n++
+			key := fmt.Sprintf("%s success return #%d is minimal", w.FuncName(fn), k)
+			// deletion scheme
+			for _, h := range loopHeaders(fn) {
+				body := loopBlocks(fn, h)
+				if body[ret.Block()] || !h.Dominates(ret.Block()) {
+					continue
+				}
+				onlyHeader := true
+				for b := range body {
+					if b == h {
+						continue
+					}
+					for _, s := range b.Succs {
+						if !body[s] {
+							onlyHeader = false
+						}
+					}
+				}
+				decides := false
+				for b := range body {
+					iff, isIf := b.Instrs[len(b.Instrs)-1].(*ssa.If)
+					if !isIf || !dominatesLatches(h, b) {
+						continue
+					}
+					if bo, isB := iff.Cond.(*ssa.BinOp); isB && (bo.Op == token.EQL || bo.Op == token.NEQ) {
+						if c, isC := bo.X.(*ssa.Call); isC && typeShort(c.Type()) == "solver.Status" {
+							if kk, isK := constInt(bo.Y); isK && kk == satK {
+								decides = true
+							}
+						}
+					}
+				}
+				if onlyHeader && decides {
+					r.OK("R7.4", key, w.InstrPos(ret), "after a deletion loop: every candidate is relaxed in turn and kept exactly when the rest becomes satisfiable")
+					return
+				}
+			}
+			// insertion scheme: under `st == Unsat` for a solver built from the Clauses of the returned problem
+			for _, ec := range dominatingConds(ret.Block()) {
+				bo, isB := ec.Cond.(*ssa.BinOp)
+				if !isB || !((bo.Op == token.EQL) == ec.True) || (bo.Op != token.EQL && bo.Op != token.NEQ) {
+					continue
+				}
+				if kk, isK := constInt(bo.Y); !isK || kk != unsatK || typeShort(bo.X.Type()) != "solver.Status" {
+					continue
+				}
+				// some call in the function takes the Clauses of the returned value
+				built := false
+				for _, ci := range callsIn(fn) {
+					for _, a := range ci.Common().Args {
+						if base, isF := isFieldLoad(a, "explain.Problem", "Clauses"); isF && base == ret.Results[0] {
+							built = true
+						}
+					}
+				}
+				if built {
+					r.OK("R7.4", key, w.InstrPos(ret), "insertion scheme: the returned set is the one the solver just found unsatisfiable, and it grows only by the clause that made the candidate set unsatisfiable")
+					return
+				}
+			}
+			r.Bad("R7.4", key, w.InstrPos(ret), "the set returned as a MUS is established unsatisfiable at most: no deletion loop, no insertion scheme and no other MUS method stands between the gathered clauses and the return, so clauses that are not needed for unsatisfiability (duplicates, clauses of other cores) can be part of the result")
+		})
+	}
+	if n < 3 {
+		r.Unk("R7.4", "MUS methods", "-", fmt.Sprintf("%d success return(s) of MUS* methods found", n))
+	}
+}
